@@ -85,12 +85,27 @@ Gen(w) ==
     [] w = "vectoradd" -> {<<wd, h>> : wd \in 1..4096, h \in 1..3}
     [] w = "xor" -> {<<>>}
 
+
+(***************************************************************************)
+(* Work-group counts and the share boundaries of the unified device.       *)
+(* Driver.distributeWGToGPUs gives every GPU of a unified device           *)
+(*     share = CUs per GPU * ceil(work-groups / total CUs)                 *)
+(* consecutive work-groups (flattened ids), the last GPUs possibly fewer   *)
+(* or none.  A work-group count t is a *boundary count* for n GPUs of cu   *)
+(* compute units each when it lies within one of a multiple of the share   *)
+(* it induces: t = k*share(t) + d, k in 1..n, d in {-1,0,1} - the counts at *)
+(* which a GPU gets its last / exactly one / no work-group.  The sizes are *)
+(* derived from the CU count of the platform (CUPerGPU), not listed.       *)
+(***************************************************************************)
+MaxBoundaryWG == 4 * 120 + 120 + 1        \* largest boundary count used: 4 stock mi300a GPUs
+CeilDiv(a, b) == (a + b - 1) \div b
+
 IsPow2(n) == \E k \in 0..16 : n = 2^k
 In(v, lo, hi) == v >= lo /\ v <= hi
 InMult(v, k, lo, hi) == v % k = 0 /\ In(v \div k, lo, hi)
 InDom(w, p) ==
   /\ Len(p) = Len(Names[w])
-  /\ CASE w = "aes" -> InMult(p[1], 16, 1, 320)
+  /\ CASE w = "aes" -> InMult(p[1], 16, 1, MaxBoundaryWG * 64)
        [] w = "atax" -> In(p[1], 1, 320) /\ p[2] = p[1]
        [] w = "bfs" -> In(p[1], 8, 1500) /\ In(p[2], 1, 4)
        [] w = "bicg" -> In(p[1], 1, 320) /\ In(p[2], 1, 320)
@@ -101,7 +116,7 @@ InDom(w, p) ==
                           /\ p[6] \in {1, 3} /\ p[7] = p[6] /\ p[8] \in {0, 1} /\ p[9] = p[8] /\ p[10] \in {1, 2} /\ p[11] = p[10]
        [] w = "fastwalshtransform" -> IsPow2(p[1]) /\ In(p[1], 2, 4096)
        [] w = "fft" -> InMult(p[1], 8192, 1, 4) /\ In(p[2], 1, 2)
-       [] w = "fir" -> In(p[1], 1, 4200) /\ In(p[2], 1, 32)
+       [] w = "fir" -> In(p[1], 1, MaxBoundaryWG * 256) /\ In(p[2], 1, 32)
        [] w = "floydwarshall" -> InMult(p[1], 8, 1, 6) /\ In(p[2], 0, 48)
        [] w = "im2col" -> /\ In(p[1], 1, 2) /\ In(p[2], 1, 2) /\ In(p[3], 4, 12) /\ p[4] = p[3] /\ p[5] \in {1, 3} /\ p[6] = p[5]
                           /\ p[7] \in {0, 1} /\ p[8] = p[7] /\ p[9] \in {1, 2} /\ p[10] = p[9] /\ p[11] \in {1, 2} /\ p[12] = p[11]
@@ -112,11 +127,11 @@ InDom(w, p) ==
        [] w = "nbody" -> In(p[1], 1, 600) /\ In(p[2], 1, 3)
        [] w = "nw" -> InMult(p[1], 64, 1, 3)
        [] w = "pagerank" -> In(p[1], 2, 64) /\ InMult(p[2], 50, 2, 20) /\ In(p[3], 1, 3)
-       [] w = "relu" -> In(p[1], 1, 4200)
+       [] w = "relu" -> In(p[1], 1, MaxBoundaryWG * 64)
        [] w = "simpleconvolution" -> In(p[1], 2, 100) /\ In(p[2], 2, 100) /\ p[3] \in {1, 3, 5}
        [] w = "spmv" -> In(p[1], 16, 300) /\ InMult(p[2], 10, 1, 30)
        [] w = "stencil2d" -> InMult(p[1], 16, 1, 4) /\ InMult(p[2], 64, 1, 3) /\ In(p[3], 1, 2)
-       [] w = "vectoradd" -> In(p[1], 1, 4096) /\ In(p[2], 1, 3)
+       [] w = "vectoradd" -> In(p[1], 1, MaxBoundaryWG * 64) /\ In(p[2], 1, 3)
        [] w = "xor" -> TRUE
 
 \* extra constraints inside the product domains
@@ -143,6 +158,42 @@ Div(w, p, n) ==
     [] w = "simpleconvolution" -> (((p[1] + p[3] - 1) * (p[2] + p[3] - 1)) \div n) * n >= p[1] * p[2]
     [] w = "vectoradd" -> (p[1] * p[2]) % n = 0
     [] OTHER -> TRUE
+
+\* compute units per GPU as registered with the driver (DeviceProperties.CUCount)
+CUPerGPU(mode, gpu, cus, sas) ==
+  IF cus * sas > 0 THEN cus * sas
+  ELSE CASE mode = "emu" -> 64                    \* emusystem.Builder: CUCount 64
+         [] gpu = "r9nano" -> 4 * 16               \* timingconfig: numCUPerSA * numSAPerGPU
+         [] gpu = "mi300a" -> 6 * 20               \* mi300a.NumCUPerShaderArray * NumShaderArray
+
+\* one-dimensional grids whose work-group count is a simple function of the size tuple
+BoundaryWorkloads == {"fir", "relu", "vectoradd", "aes"}
+WGCount(w, p) ==
+  CASE w = "fir" -> CeilDiv(p[1], 256)
+    [] w = "relu" -> CeilDiv(p[1], 64)
+    [] w = "vectoradd" -> CeilDiv(p[1] * p[2], 64)
+    [] w = "aes" -> CeilDiv(p[1] \div 16, 64)
+\* a size tuple with exactly t work-groups (relu: the last one partial)
+SizeWithWG(w, t) ==
+  CASE w = "fir" -> <<256 * t, 16>>
+    [] w = "relu" -> <<64 * t - 1>>
+    [] w = "vectoradd" -> <<64 * t, 1>>
+    [] w = "aes" -> <<1024 * t>>
+
+Share(n, cu, t) == cu * CeilDiv(t, n * cu)
+BoundaryCounts(n, cu) ==
+  {t \in 1..(n * cu + cu + 1) : \E k \in 1..n, d \in {-1, 0, 1} : t = k * Share(n, cu, t) + d}
+\* work-groups the i-th GPU (1-based) of the unified device must run
+ShareOf(n, cu, t, i) == LET s == Share(n, cu, t)
+                            lo == (i - 1) * s
+                            hi == IF i * s < t THEN i * s ELSE t
+                        IN IF hi > lo THEN hi - lo ELSE 0
+
+ASSUME \A w \in BoundaryWorkloads : \A t \in {1, 2, 65, 129, 257, MaxBoundaryWG} :
+          InDom(w, SizeWithWG(w, t)) /\ WGCount(w, SizeWithWG(w, t)) = t
+\* the counts at which the last work-group is alone on its GPU are boundary counts (65 = 64 + 1 on two 64-CU GPUs, ...)
+ASSUME 65 \in BoundaryCounts(2, 64) /\ 129 \in BoundaryCounts(2, 64) /\ {65, 129, 193, 257} \subseteq BoundaryCounts(4, 64)
+ASSUME ShareOf(2, 64, 65, 2) = 1 /\ ShareOf(2, 64, 64, 2) = 0 /\ ShareOf(4, 64, 193, 4) = 1 /\ ShareOf(4, 2, 9, 3) = 1
 
 \* SelectGPU refuses more than one GPU
 SingleGPU == {"bfs", "nw", "conv2d", "im2col", "memcopy", "xor"}
@@ -220,7 +271,7 @@ SizeClasses(w) ==
     [] w = "floydwarshall" -> <<<<16, 0>>, <<24, 0>>, <<32, 5>>>>
     [] w = "im2col" -> <<<<1, 1, 8, 8, 3, 3, 0, 0, 1, 1, 1, 1>>, <<2, 2, 9, 9, 3, 3, 1, 1, 2, 2, 1, 1>>, <<1, 2, 12, 12, 3, 3, 1, 1, 1, 1, 2, 2>>>>
     [] w = "kmeans" -> <<<<128, 3, 4, 3>>, <<100, 2, 3, 2>>, <<256, 5, 8, 2>>>>
-    [] w = "matrixmultiplication" -> <<<<32, 128, 32>>, <<64, 128, 32>>, <<32, 128, 64>>>>
+    [] w = "matrixmultiplication" -> <<<<32, 32, 32>>, <<32, 128, 32>>, <<64, 128, 32>>, <<32, 128, 64>>>>
     [] w = "matrixtranspose" -> <<<<64>>, <<128>>, <<256>>>>
     [] w = "memcopy" -> <<<<100>>, <<4096>>, <<65636>>>>
     [] w = "nbody" -> <<<<256, 1>>, <<512, 1>>, <<300, 2>>>>
